@@ -95,7 +95,7 @@ def run(res, replay=None):
     vlib.proof_stage(res)
     quick = res.tier == "quick"
     count = 12 if quick else 60
-    states, pages = (6, 16) if quick else (60, 120)
+    states, pages = (10, 24) if quick else (300, 400)
     scratch = vlib.scratch_dir()
     try:
         orig = genprogs.gen_batch
